@@ -61,10 +61,10 @@ def plan(tier):
                     min_evals={"write_bytes": 3800, "read_matches_bytes": 5500, "roundtrip": 3000, "raw_read": 1600,
                                "convert_voxels": 780, "overwrite_refusal": 120},
                     min_anchor_calls={"cryomap.em2mrc": 300, "cryomap.mrc2em": 300})
-    return dict(n_cases=500 * len(CLASSES), shards=16, classes=CLASSES, timeout_s=3000,
-                min_evals={"write_bytes": 40000, "read_matches_bytes": 40000, "roundtrip": 30000, "raw_read": 10000,
-                           "convert_voxels": 7500, "overwrite_refusal": 1000},
-                min_anchor_calls={"cryomap.em2mrc": 2500, "cryomap.mrc2em": 2500})
+    return dict(n_cases=2000 * len(CLASSES), shards=16, classes=CLASSES, timeout_s=3000,
+                min_evals={"write_bytes": 120000, "read_matches_bytes": 160000, "roundtrip": 90000, "raw_read": 36000,
+                           "convert_voxels": 30000, "overwrite_refusal": 5500},
+                min_anchor_calls={"cryomap.em2mrc": 12000, "cryomap.mrc2em": 12000})
 
 
 # ---- call monitors ------------------------------------------------------------------------------
@@ -456,7 +456,7 @@ def run_case(ctx, case):
 def extra(ctx):
     """exhaustive sub-space: every shape in {1..N}^3 x 4 dtypes x 3 extensions, write then read, plus a raw file."""
     cm = ctx.cmap
-    n = 4 if ctx.tier == "quick" else 6
+    n = 4 if ctx.tier == "quick" else 8
     d = os.path.join(ctx.scratch, "exhaustive")
     os.makedirs(d, exist_ok=True)
     count = 0
